@@ -19,8 +19,8 @@ def summarize(run, recs, mode):
     panics = sum(1 for r in recs for o in r["fams"]["VecDirect"] if o["p"])
     run.cov.update({"evaluations": len(recs) * 4, "steps_observed": steps * 4,
                     "rule": "random operation histories (mode %s) over three registers, applied in lock-step to ChemicalCompositionVec, "
-                            "ChemicalCompositionMap, ChemicalComposition::Vec and ::Map; keys from a pool of 9 (C, C[12], C[13], H, H[2], O, Cl, N, "
-                            "Cl[37]); after every step the target register's public reads, cache flag, mass and calc_mass are recorded; "
+                            "ChemicalCompositionMap, ChemicalComposition::Vec and ::Map; keys from a pool of 14 (C, C[12], C[13], H, H[2], O, Cl, N, "
+                            "Cl[37], and Ar, Ca, H+, Tc, Pm which collide pairwise on mass number / most abundant isotope); after every step the target register's public reads, cache flag, mass and calc_mass are recorded; "
                             "non-trivial = history of at least 3 operations; histories are distinct generator draws" % mode,
                     "op_histogram": dict(ops), "history_length_histogram": {str(k): v for k, v in sorted(lens.items())},
                     "steps_with_populated_cache": cached, "steps_that_panicked": panics})
